@@ -154,7 +154,7 @@ Section Auto.
   Qed.
   (* ... and ON THE FINISHED SETUP: the explicit call crystal_setup.optimum_theta(&signal, &pump) returns the setup's own crystal
      angle PROVIDED the external angle of the finished signal does not depend on the crystal angle (true of a collinear signal;
-     false otherwise -- the signal was converted in the placeholder crystal and never recomputed: finding F16) *)
+     false otherwise -- the signal was converted in the placeholder crystal and never recomputed: finding F22) *)
   Theorem auto_theta_is_final_optimum c s nf :
     try_as_spdc_steps o U K minpos rj c = Ok (s, nf) -> cc_theta_deg (c_crystal c) = Auto ->
     (forall th, o_snell_ext K (s_signal s) (set_crystal_theta (cfg_cs0 o c) th) = o_snell_ext K (s_signal s) (cfg_cs0 o c)) ->
